@@ -49,6 +49,16 @@ structure Info where
   sat    : Bool          -- OnceResourceSatisfied
 deriving Repr, DecidableEq
 
+/-- gang.go Gang.{Children, PendingChildren, WaitingForBindChildren, BoundChildren} (key sets) -/
+structure PodSets where
+  children : List Pod
+  pending  : List Pod
+  waiting  : List Pod    -- WaitingForBindChildren
+  bound    : List Pod
+deriving Repr, DecidableEq
+
+def PodSets.empty : PodSets := { children := [], pending := [], waiting := [], bound := [] }
+
 /-- gang.go Gang. policy: 0 only-waiting, 1 waiting-and-running, 2 once-satisfied. -/
 structure Gang where
   id       : GangId
@@ -59,10 +69,7 @@ structure Gang where
   strict   : Bool        -- Mode == Strict
   group    : List GangId -- GangGroup
   info     : Nat         -- GangGroupInfo (object id)
-  children : List Pod
-  pending  : List Pod
-  waiting  : List Pod    -- WaitingForBindChildren
-  bound    : List Pod
+  ps       : PodSets
 deriving Repr, DecidableEq
 
 structure State where
@@ -120,7 +127,7 @@ def setSat (is : List Info) (oid : Nat) : List Info :=
 /-- NewGang -/
 def newGang (id : GangId) (oid : Nat) : Gang :=
   { id := id, init := false, fromAnno := true, min := 0, policy := 2, strict := true, group := [id],
-    info := oid, children := [], pending := [], waiting := [], bound := [] }
+    info := oid, ps := PodSets.empty }
 
 /-- getGangFromCacheByGangId(id, createIfNotExist = true) -/
 def ensureGang (s : State) (id : GangId) : State :=
@@ -164,29 +171,35 @@ def applyCfg (g : Gang) (c : Cfg) (fromAnno : Bool) : Gang :=
 /-! ### gang.go: the four child sets -/
 
 /-- setChild -/
-def Gang.setChild (g : Gang) (p : Pod) (hasNode : Bool) : Gang :=
+def PodSets.setChild (g : PodSets) (p : Pod) (hasNode : Bool) : PodSets :=
   let g1 := { g with children := sIns p g.children }
   if hasNode = false ∧ p ∉ g1.waiting then { g1 with pending := sIns p g1.pending } else g1
 
 /-- addAssumedPod -/
-def Gang.addAssumed (g : Gang) (p : Pod) : Gang :=
+def PodSets.addAssumed (g : PodSets) (p : Pod) : PodSets :=
   { g with waiting := sIns p g.waiting, pending := sDel p g.pending }
 
 /-- delAssumedPod -/
-def Gang.delAssumed (g : Gang) (p : Pod) : Gang :=
+def PodSets.delAssumed (g : PodSets) (p : Pod) : PodSets :=
   if p ∈ g.waiting then
     { g with waiting := sDel p g.waiting,
              pending := if p ∈ g.children then sIns p g.pending else g.pending }
   else g
 
 /-- addBoundPod (set part) -/
-def Gang.addBound (g : Gang) (p : Pod) : Gang :=
+def PodSets.addBound (g : PodSets) (p : Pod) : PodSets :=
   { g with waiting := sDel p g.waiting, pending := sDel p g.pending, bound := sIns p g.bound }
 
 /-- deletePod (set part) -/
-def Gang.deletePod (g : Gang) (p : Pod) : Gang :=
-  { g with children := sDel p g.children, pending := sDel p g.pending,
-           waiting := sDel p g.waiting, bound := sDel p g.bound }
+def PodSets.deletePod (g : PodSets) (p : Pod) : PodSets :=
+  { children := sDel p g.children, pending := sDel p g.pending,
+    waiting := sDel p g.waiting, bound := sDel p g.bound }
+
+def Gang.setChild (g : Gang) (p : Pod) (hasNode : Bool) : Gang := { g with ps := g.ps.setChild p hasNode }
+def Gang.addAssumed (g : Gang) (p : Pod) : Gang := { g with ps := g.ps.addAssumed p }
+def Gang.delAssumed (g : Gang) (p : Pod) : Gang := { g with ps := g.ps.delAssumed p }
+def Gang.addBound (g : Gang) (p : Pod) : Gang := { g with ps := g.ps.addBound p }
+def Gang.deletePod (g : Gang) (p : Pod) : Gang := { g with ps := g.ps.deletePod p }
 
 /-- gang.setResourceSatisfied on whatever info the gang holds now -/
 def satGang (s : State) (id : GangId) : State :=
@@ -206,9 +219,9 @@ def removeGang (s : State) (g : Gang) : State :=
 def validForPermit (s : State) (g : Gang) : Bool :=
   g.init &&
     (match g.policy with
-     | 0 => decide (g.min ≤ (g.waiting.length : Int))
-     | 1 => decide (g.min ≤ ((g.waiting.length + g.bound.length : Nat) : Int))
-     | _ => decide (g.min ≤ (g.waiting.length : Int)) || infoSat s g.info)
+     | 0 => decide (g.min ≤ (g.ps.waiting.length : Int))
+     | 1 => decide (g.min ≤ ((g.ps.waiting.length + g.ps.bound.length : Nat) : Int))
+     | _ => decide (g.min ≤ (g.ps.waiting.length : Int)) || infoSat s g.info)
 
 /-- the loop of Permit over the gang group -/
 def allValid (s : State) (group : List GangId) : Bool :=
@@ -271,7 +284,7 @@ def podDel (s : State) (p : Pod) (id : GangId) : State :=
   | some g =>
     let g' := g.deletePod p
     let s1 := { s with gangs := updGang s.gangs id (fun g => g.deletePod p) }
-    if g'.fromAnno = true ∧ g'.children = [] then removeGang s1 g' else s1
+    if g'.fromAnno = true ∧ g'.ps.children = [] then removeGang s1 g' else s1
 
 /-- core.go Permit + coscheduling.go Permit (AllowGangGroup on Success) + the framework parking
     the pod on Wait. -/
